@@ -258,7 +258,9 @@ def register(reg):
                  ('nothing-lost', complete_upto(c, c, Cv, Mv, TOTAL, n)),
                  ('covered-rows-inside-query', covered_sound(c, Cv, n))])
 
-    reg.add(Contract(RT + '::_NumbaRtree._maybe_intersects_ranges', params, requires=requires, ensures=ensures,
+    from pyvc.contracts import GListOf
+    reg.add(Contract(RT + '::_NumbaRtree._maybe_intersects_ranges', params, returns=Tup(GListOf(2), GListOf(2)),
+                     requires=requires, ensures=ensures,
                      configs=[{'n': 1}, {'n': 2}, {'n': 3}],
                      glists={'nodes': None, 'covered_ranges': 2, 'maybe_intersect_ranges': 2},
                      loops={0: Loop(invariant=inv, hints=body_end, keep_using=KEEP)},
@@ -283,6 +285,158 @@ def register(reg):
                  forall('int', lambda k: Implies(And(k >= 0, k < ln), r[k] == valid(c, c.start + k, n)),
                         patterns=lambda k: [r[k].z()]))]
 
+    register_assembly(reg, mk, requires, meets)
     reg.add(Contract(RT + '::_NumbaRtree._valid_rows', vr_params, returns=Arr('bool', 'bool'), requires=vr_requires,
                      ensures=vr_ensures, configs=[{'n': 1}, {'n': 2}, {'n': 3}], props=P, fuel=1))
 
+
+
+# ---------------------------------------------------------------------------------------------------------------
+# _NumbaRtree.intersects: the assembly of row ids.  What is proved: every write into the result buffer is in bounds
+# (numba does not check), the leaf-level mask is exact (a row of an overlapping page is kept iff it has no NaN and
+# meets the query), the result is a prefix of the buffer.  NOT proved (bounded stand-in): that the ids written are
+# exactly the keys of the selected rows, each once - the compaction of keys through boolean masks.
+SUMLEN = RecSpec('SUMLEN', [_AS, _AS, 'int'], 'int',
+                 lambda self, a, b, k: Ite(k <= 0, SInt(0), self(a, b, k - 1) + SInt(z3.Select(b, (k - 1).z())) - SInt(z3.Select(a, (k - 1).z()))))
+
+
+def register_assembly(reg, mk, requires_ti, meets):
+    from pyvc.contracts import GListOf
+
+    def params(cfg):
+        n = cfg['n']
+        return [('self', mk(n)), ('query_bounds', Tup(*[Flt() for _ in range(2 * n)]))]
+
+    def requires(c):
+        N = c.self._bounds.shape[0]
+        K = c.self._keys
+        return requires_ti(c) + [
+            ('one-key-per-row', K.shape[0] == N),
+            ('keys-are-row-ids', forall('int', lambda i: Implies(And(i >= 0, i < N), And(K[i] >= 0, K[i] < 2 ** 32)),
+                                        patterns=lambda i: [K[i].z()]))]
+
+    def total(Cv, Mv, kc, km):
+        return SUMLEN(Cv.cols[0], Cv.cols[1], kc) + SUMLEN(Mv.cols[0], Mv.cols[1], km)
+
+    def nonneg(G):
+        return forall('int', lambda i: Implies(And(i >= 0, i < G.n), And(0 <= G[i][0], G[i][0] <= G[i][1])),
+                      patterns=lambda i: [G[i][0].z()])
+
+    def mono_ens(n):
+        return [('monotone', SUMLEN(n.a, n.b, n.j) <= SUMLEN(n.a, n.b, n.k)), ('nonneg', SUMLEN(n.a, n.b, n.k) >= 0)]
+
+    def mono_req(n):
+        return [And(n.j >= 0, n.j <= n.k),
+                forall('int', lambda i: Implies(And(i >= 0, i < n.k), SInt(z3.Select(n.a, i.z())) <= SInt(z3.Select(n.b, i.z()))),
+                       patterns=lambda i: [z3.Select(n.a, i.z())])]
+
+    reg.add_lemma(Lemma('sumlen_monotone', [('a', _AS), ('b', _AS), ('j', 'int'), ('k', 'int')], requires=mono_req, ensures=mono_ens,
+                        proof=lambda n, use: [use('sumlen_monotone', a=n.a, b=n.b, j=Ite(n.j < n.k, n.j, n.k - 1), k=n.k - 1)],
+                        decreases=lambda n: n.k, props=P, fuel=2))
+
+    def prefix_facts(c):
+        """ghost steps before the first loop: prefix sums of the range lengths never exceed the total"""
+        out = []
+        for nm in ('covered_ranges', 'maybe_intersect_ranges'):
+            G = getattr(c, nm)
+            out.append((f'{nm}-non-negative', nonneg(G)))
+            out.append((f'{nm}-prefix-sums', instance_forall(
+                reg, 'sumlen_monotone', ['int'], lambda j, G=G: dict(a=G.cols[0], b=G.cols[1], j=j, k=G.n),
+                guard=lambda j, G=G: And(j >= 0, j <= G.n), patterns=lambda j, G=G: [SUMLEN(G.cols[0], G.cols[1], j).z()])))
+        return out
+
+    def nxt(G, k):
+        return Implies(And(k >= 0, k < G.n), SUMLEN(G.cols[0], G.cols[1], k + 1) == SUMLEN(G.cols[0], G.cols[1], k) + G[k][1] - G[k][0])
+
+    def inv_sum_c(c):
+        Cv, Mv = c.covered_ranges, c.maybe_intersect_ranges
+        return [('k', And(c._k >= 0, c._k <= Cv.n)), ('max-len', c.max_len == total(Cv, Mv, c._k, SInt(0))),
+                ('max-len-nonneg', c.max_len >= 0)]
+
+    def inv_sum_m(c):
+        Cv, Mv = c.covered_ranges, c.maybe_intersect_ranges
+        return [('k', And(c._k >= 0, c._k <= Mv.n)), ('max-len', c.max_len == total(Cv, Mv, Cv.n, c._k)),
+                ('max-len-nonneg', c.max_len >= 0)]
+
+    def inv_fill_c(c):
+        Cv, Mv = c.covered_ranges, c.maybe_intersect_ranges
+        return [('k', And(c._k >= 0, c._k <= Cv.n)), ('buffer', c.result.shape[0] == c.max_len),
+                ('max-len', c.max_len == total(Cv, Mv, Cv.n, Mv.n)),
+                ('filled-so-far', And(c.result_start >= 0, c.result_start <= total(Cv, Mv, c._k, SInt(0)))),
+                ('next-prefix', nxt(Cv, c._k))]
+
+    def inv_fill_m(c):
+        Cv, Mv = c.covered_ranges, c.maybe_intersect_ranges
+        return [('k', And(c._k >= 0, c._k <= Mv.n)), ('buffer', c.result.shape[0] == c.max_len),
+                ('max-len', c.max_len == total(Cv, Mv, Cv.n, Mv.n)),
+                ('filled-so-far', And(c.result_start >= 0, c.result_start <= total(Cv, Mv, Cv.n, c._k))),
+                ('next-prefix', nxt(Mv, c._k))]
+
+    def leaf_mask(c):
+        n = c.config['n']
+        ca = c.a
+        m = c.outside_mask
+        return [('leaf-mask-is-exact', forall('int', lambda k: Implies(And(k >= 0, k < m.shape[0]),
+                                                                      m[k] == Not(meets(ca, c.start + k, ca.query_bounds, n))),
+                                              patterns=lambda k: [m[k].z()]))]
+
+    def ensures(c, r):
+        return [('result-is-a-prefix-of-the-buffer', r.shape[0] >= 0)]
+
+    # ---- covers_overlaps: two buffers, two leaf masks
+    def sl(G, k):
+        return SUMLEN(G.cols[0], G.cols[1], k)
+
+    def co_sum_c(c):
+        Cv = c.covered_ranges
+        return [('k', And(c._k >= 0, c._k <= Cv.n)), ('max-len0', And(c.max_len0 == sl(Cv, c._k), c.max_len0 >= 0))]
+
+    def co_sum_m(c):
+        Cv, Mv = c.covered_ranges, c.maybe_intersect_ranges
+        return [('k', And(c._k >= 0, c._k <= Mv.n)), ('max-len0', And(c.max_len0 == sl(Cv, Cv.n), c.max_len0 >= 0)),
+                ('max-len1', And(c.max_len1 == sl(Mv, c._k), c.max_len1 >= 0))]
+
+    def co_sizes(c):
+        Cv, Mv = c.covered_ranges, c.maybe_intersect_ranges
+        return [('buffers', And(c.covers_inds.shape[0] == c.max_len0 + c.max_len1, c.overlaps_inds.shape[0] == c.max_len1)),
+                ('totals', And(c.max_len0 == sl(Cv, Cv.n), c.max_len1 == sl(Mv, Mv.n), c.max_len0 >= 0, c.max_len1 >= 0))]
+
+    def co_fill_c(c):
+        Cv = c.covered_ranges
+        return [('k', And(c._k >= 0, c._k <= Cv.n))] + co_sizes(c) + [
+            ('filled-so-far', And(c.covers_start >= 0, c.covers_start <= sl(Cv, c._k))), ('next-prefix', nxt(Cv, c._k))]
+
+    def co_fill_m(c):
+        Cv, Mv = c.covered_ranges, c.maybe_intersect_ranges
+        return [('k', And(c._k >= 0, c._k <= Mv.n))] + co_sizes(c) + [
+            ('filled-so-far', And(c.covers_start >= 0, c.covers_start <= sl(Cv, Cv.n) + sl(Mv, c._k),
+                                  c.overlaps_start >= 0, c.overlaps_start <= sl(Mv, c._k))),
+            ('next-prefix', nxt(Mv, c._k))]
+
+    def inside_row(ca, r, q, n):
+        b = ca.self._bounds
+        return And(*[And(b[r, d] >= q[d], b[r, d + n] <= q[d + n]) for d in range(n)])
+
+    def co_masks(c):
+        n = c.config['n']
+        ca = c.a
+        om, cm = c.outside_mask, c.covers_mask
+        return [('outside-mask-is-exact', forall('int', lambda k: Implies(And(k >= 0, k < om.shape[0]),
+                                                                         om[k] == Not(meets(ca, c.start + k, ca.query_bounds, n))),
+                                                 patterns=lambda k: [om[k].z()])),
+                ('covers-mask-is-exact', forall('int', lambda k: Implies(And(k >= 0, k < cm.shape[0]),
+                                                                        cm[k] == inside_row(ca, c.start + k, ca.query_bounds, n)),
+                                                patterns=lambda k: [cm[k].z()]))]
+
+    reg.add(Contract(RT + '::_NumbaRtree.covers_overlaps', params, returns=Tup(Arr('int', 'uint32'), Arr('int', 'uint32')),
+                     requires=requires, ensures=lambda c, r: [('results-are-prefixes-of-the-buffers', And(r[0].shape[0] >= 0, r[1].shape[0] >= 0))],
+                     configs=[{'n': 1}, {'n': 2}, {'n': 3}],
+                     loops={0: Loop(invariant=co_sum_c, entry_hints=prefix_facts), 1: Loop(invariant=co_sum_m),
+                            2: Loop(invariant=co_fill_c), 3: Loop(invariant=co_fill_m, hints=co_masks)},
+                     props=P, fuel=2, merge=False))
+
+    reg.add(Contract(RT + '::_NumbaRtree.intersects', params, returns=Arr('int', 'uint32'), requires=requires, ensures=ensures,
+                     configs=[{'n': 1}, {'n': 2}, {'n': 3}],
+                     loops={0: Loop(invariant=inv_sum_c, entry_hints=prefix_facts), 1: Loop(invariant=inv_sum_m), 2: Loop(invariant=inv_fill_c),
+                            3: Loop(invariant=inv_fill_m, hints=leaf_mask)},
+                     props=P, fuel=2, merge=False))
